@@ -25,6 +25,8 @@ M0 == [enums |-> [Color |-> {"RED", "GREEN"}],
   LeafIn |-> [kind |-> "object", bases |-> <<>>, resolvers |-> <<>>,
               fields |-> <<Fld("n", "", TCInt, Req), Fld("opt_s", "the_s", TOpt(TStr), DfNull), Fld("tags", "", TList(TStr), DfVal(VList(<<>>))),
                            Fld("u", "", TUnd(TInt), DfUndef), Fld("k", "", TInt, DfVal(DInt(7))),
+                           \* a default FACTORY for Python callers, but `required` in the data
+                           Fld("rq", "", TList(TStr), DfReqVal(VList(<<>>))),
                            \* an OBJECT-valued default whose keys the aliaser renames
                            Fld("sub_in", "", TObj("SubIn"), DfVal(VInst("SubIn", << <<"x_coord", DInt(4)>> >>)))>>],
   EnumIn |-> [kind |-> "object", bases |-> <<>>, resolvers |-> <<>>,
@@ -48,8 +50,11 @@ M0 == [enums |-> [Color |-> {"RED", "GREEN"}],
               resolvers |-> <<[name |-> "first", params |-> <<>>, ret |-> TStr],
                               [name |-> "has", params |-> <<Prm("item", TStr, Req)>>, ret |-> TBool]>>],
   Child  |-> [kind |-> "object", bases |-> <<>>, resolvers |-> <<>>, fields |-> <<Fld("c", "", TInt, Req)>>],
+  \* Part itself flattens Inner: through Holder.flat the fields of Inner are reached across TWO levels of flattening
+  Inner  |-> [kind |-> "object", bases |-> <<>>, resolvers |-> <<>>, fields |-> <<Fld("deep_d", "", TInt, Req)>>],
   Part   |-> [kind |-> "object", bases |-> <<>>, resolvers |-> <<>>,
-              fields |-> <<Fld("part_n", "", TInt, Req), Fld("child", "", TObj("Child"), Req)>>],
+              fields |-> <<Fld("part_n", "", TInt, Req), Fld("child", "", TObj("Child"), Req),
+                           [Fld("inner", "", TObj("Inner"), Req) EXCEPT !.flat = TRUE]>>],
   Holder |-> [kind |-> "object", bases |-> <<>>, resolvers |-> <<>>,
               fields |-> <<Fld("leaf", "", TObj("Leaf"), Req), Fld("leaves", "", TList(TObj("Leaf")), Req),
                            Fld("maybe", "", TOpt(TObj("Leaf")), Req), Fld("who", "", TUni(<<"User", "Bot">>), Req),
@@ -66,7 +71,8 @@ UserV == VInst("User", << <<"id", DStr("1")>>, <<"name", DStr("bob")>>, <<"age",
 UserV2 == VInst("User", << <<"id", DStr("3")>>, <<"name", DStr("eve")>>, <<"age", DInt(4)>>, <<"u", DInt(5)>> >>)
 BotV  == VInst("Bot",  << <<"id", DStr("2")>>, <<"name", DStr("bot")>>, <<"model", DStr("m")>> >>)
 DeepV == VInst("Deep", << <<"id", DStr("4")>>, <<"name", DStr("deep")>>, <<"level", DInt(1)>>, <<"depth", DInt(2)>> >>)
-PartV(n) == VInst("Part", << <<"part_n", DInt(n)>>, <<"child", VInst("Child", << <<"c", DInt(n + 1)>> >>)>> >>)
+PartV(n) == VInst("Part", << <<"part_n", DInt(n)>>, <<"child", VInst("Child", << <<"c", DInt(n + 1)>> >>)>>,
+                          <<"inner", VInst("Inner", << <<"deep_d", DInt(n + 2)>> >>)>> >>)
 HolderV(who, named, maybe) ==
   VInst("Holder", << <<"leaf", LeafV(1, DNull, "RED")>>, <<"leaves", VList(<<LeafV(2, DStr("s"), "GREEN")>>)>>, <<"maybe", maybe>>,
                      <<"who", who>>, <<"named", named>>, <<"node", UserV>>, <<"part", PartV(5)>>, <<"flat", PartV(8)>> >>)
@@ -115,20 +121,20 @@ Params ==
   { [p |-> Prm("arg_one", TId, Req), ds |-> {DStr("x1")}], [p |-> Prm("arg_one", TScore, Req), ds |-> {DInt(9)}],
     [p |-> Prm("arg_one", TBool, DfVal(DBool(FALSE))), ds |-> {DBool(TRUE)}] } \cup
   { [p |-> Prm("arg_one", TObj("LeafIn"), Req),
-     ds |-> {DObj(<< <<"n", DInt(1)>> >>), DObj(<< <<"n", DInt(0 - 1)>> >>), DObj(<<>>),
-             DObj(<< <<"n", DInt(1)>>, <<"the_s", DStr("s")>>, <<"tags", DArr(<<DStr("a")>>)>>, <<"u", DInt(2)>>, <<"k", DInt(8)>> >>),
-             DObj(<< <<"n", DInt(1)>>, <<"the_s", DNull>>, <<"u", DNull>> >>),
-             DObj(<< <<"n", DInt(1)>>, <<"opt_s", DStr("python name")>> >>)}] } \cup
-  { [p |-> Prm("arg_one", TOpt(TObj("LeafIn")), DfNull), ds |-> {DObj(<< <<"n", DInt(1)>> >>)}] } \cup
+     ds |-> {DObj(<< <<"n", DInt(1)>> >>), DObj(<< <<"n", DInt(1)>>, <<"rq", DArr(<<>>)>> >>), DObj(<< <<"n", DInt(0 - 1)>>, <<"rq", DArr(<<>>)>> >>), DObj(<<>>),
+             DObj(<< <<"n", DInt(1)>>, <<"the_s", DStr("s")>>, <<"tags", DArr(<<DStr("a")>>)>>, <<"u", DInt(2)>>, <<"k", DInt(8)>>, <<"rq", DArr(<<DStr("r")>>)>> >>),
+             DObj(<< <<"n", DInt(1)>>, <<"the_s", DNull>>, <<"u", DNull>>, <<"rq", DArr(<<DStr("r")>>)>> >>),
+             DObj(<< <<"n", DInt(1)>>, <<"opt_s", DStr("python name")>>, <<"rq", DArr(<<DStr("r")>>)>> >>)}] } \cup
+  { [p |-> Prm("arg_one", TOpt(TObj("LeafIn")), DfNull), ds |-> {DObj(<< <<"n", DInt(1)>>, <<"rq", DArr(<<>>)>> >>)}] } \cup
   { [p |-> Prm("arg_one", TObj("EnumIn"), Req), ds |-> {DObj(<<>>), DObj(<< <<"col", EName("RED")>> >>)}] }
 
 \* the parameters whose data can pass GraphQL's own coercion and still be rejected by apischema, under an error_handler
 EhParams == {[q EXCEPT !.p = [q.p EXCEPT !.eh = h]] : q \in {x \in Params : x.p.t \in {TCInt, TOpt(TCInt), TList(TCInt), TObj("LeafIn")}},
                                                        h \in {"none", "custom"}}
 InfoParams == {[q EXCEPT !.p = [q.p EXCEPT !.pos = "afterinfo"]] : q \in {x \in Params : x.p.t \in {TInt, TOpt(TInt)}}}
-LeafInV == VInst("LeafIn", << <<"n", DInt(2)>>, <<"opt_s", DStr("dflt")>>, <<"tags", VList(<<>>)>>, <<"u", VUndef>>, <<"k", DInt(7)>>,
+LeafInV == VInst("LeafIn", << <<"n", DInt(2)>>, <<"opt_s", DStr("dflt")>>, <<"tags", VList(<<>>)>>, <<"u", VUndef>>, <<"k", DInt(7)>>, <<"rq", VList(<<>>)>>,
                                <<"sub_in", VInst("SubIn", << <<"x_coord", DInt(4)>> >>)>> >>)
-ObjDefaultParams == {[p |-> Prm("arg_one", TObj("LeafIn"), DfVal(LeafInV)), ds |-> {DObj(<< <<"n", DInt(1)>> >>)}]}
+ObjDefaultParams == {[p |-> Prm("arg_one", TObj("LeafIn"), DfVal(LeafInV)), ds |-> {DObj(<< <<"n", DInt(1)>>, <<"rq", DArr(<<>>)>> >>), DObj(<< <<"n", DInt(1)>> >>)}]}
 Cfgs == {[kind |-> "root", root |-> r] : r \in Roots}
         \cup {[kind |-> "param", prm |-> p] : p \in Params \cup EhParams \cup InfoParams \cup ObjDefaultParams}
         \cup {[kind |-> "types"]}
